@@ -7,7 +7,8 @@ CONSTANTS AlphaName, N
 AlphaFull  == <<"a", "1", " ", "\n", "\"", "{", "}", "\\", "#", ".", "\r\n", "=">>
 AlphaLines == <<"a", " ", "\n", "\"", "{">>
 AlphaInd   == <<"a", " ", "\n", "#">>
-Alpha == CASE AlphaName = "full" -> AlphaFull [] AlphaName = "lines" -> AlphaLines [] AlphaName = "indent" -> AlphaInd
+AlphaInterp == <<"a", " ", "\"", "{", "}">>
+Alpha == CASE AlphaName = "full" -> AlphaFull [] AlphaName = "lines" -> AlphaLines [] AlphaName = "indent" -> AlphaInd [] AlphaName = "interp" -> AlphaInterp
 RECURSIVE Flatten(_, _)
 Flatten(parts, j) == IF j > Len(parts) THEN <<>> ELSE (IF parts[j] = "\r\n" THEN <<"\r", "\n">> ELSE <<parts[j]>>) \o Flatten(parts, j + 1)
 VARIABLE parts
